@@ -6,5 +6,7 @@
 #define VERIF_SHIM_IDNA_H
 enum { IDNA_SUCCESS = 0 };
 extern int idna_to_ascii_lz (const char *input, char **output, int flags);
+extern int idna_to_ascii_8z (const char *input, char **output, int flags);   /* same converter: the harness's strings are UTF-8 */
+extern int idna_to_ascii_4z (const unsigned int *input, char **output, int flags);
 extern const char *idna_strerror (int rc);
 #endif
